@@ -10,9 +10,110 @@ import (
 
 // ModSet is the inferred set of heap components a function may write (transitively).
 type ModSet struct {
-	comps map[string]compRef // component name -> how to (re)declare it in a unit
-	all   bool
-	why   string
+	comps map[string]compRef // components written at unknown references (component name -> declaration recipe)
+	// components written only inside the object a parameter (byParam) or captured variable (byFree) points to
+	byParam map[int]map[string]compRef
+	byFree  map[int]map[string]compRef
+	all     bool
+	why     string
+}
+
+type callSite struct {
+	callee   *ssa.Function
+	args     []ssa.Value // aligned with callee.Params; nil when the alignment is unknown
+	bindings []ssa.Value // aligned with callee.FreeVars; nil when unknown
+}
+
+func newModSet() *ModSet {
+	return &ModSet{comps: map[string]compRef{}, byParam: map[int]map[string]compRef{}, byFree: map[int]map[string]compRef{}}
+}
+
+// addRooted records a write of component c inside the object denoted by root.
+func (ms *ModSet) addRooted(u *Unit, c compRef, kind string, idx int) bool {
+	n, _ := u.resolveComp(c)
+	switch kind {
+	case "fresh":
+		return false
+	case "param":
+		if _, ok := ms.comps[n]; ok {
+			return false
+		}
+		if ms.byParam[idx] == nil {
+			ms.byParam[idx] = map[string]compRef{}
+		}
+		if _, ok := ms.byParam[idx][n]; ok {
+			return false
+		}
+		ms.byParam[idx][n] = c
+		return true
+	case "free":
+		if _, ok := ms.comps[n]; ok {
+			return false
+		}
+		if ms.byFree[idx] == nil {
+			ms.byFree[idx] = map[string]compRef{}
+		}
+		if _, ok := ms.byFree[idx][n]; ok {
+			return false
+		}
+		ms.byFree[idx][n] = c
+		return true
+	}
+	if _, ok := ms.comps[n]; ok {
+		return false
+	}
+	ms.comps[n] = c
+	return true
+}
+
+// rootOf classifies the object an address / slice / map value lives in: "fresh" (allocated by this function),
+// "param" i, "free" k (captured variable), or "any".
+func rootOf(v ssa.Value, depth int) (string, int) {
+	if depth > 12 {
+		return "any", 0
+	}
+	switch x := v.(type) {
+	case *ssa.FieldAddr:
+		return rootOf(x.X, depth+1)
+	case *ssa.IndexAddr:
+		return rootOf(x.X, depth+1)
+	case *ssa.Slice:
+		return rootOf(x.X, depth+1)
+	case *ssa.ChangeType:
+		return rootOf(x.X, depth+1)
+	case *ssa.Alloc, *ssa.MakeSlice, *ssa.MakeMap, *ssa.MakeChan:
+		return "fresh", 0
+	case *ssa.Parameter:
+		for i, p := range x.Parent().Params {
+			if p == x {
+				return "param", i
+			}
+		}
+	case *ssa.FreeVar:
+		for i, f := range x.Parent().FreeVars {
+			if f == x {
+				return "free", i
+			}
+		}
+	case *ssa.Call:
+		if b, ok := x.Common().Value.(*ssa.Builtin); ok && b.Name() == "append" {
+			return "fresh", 0 // modelled as a fresh backing array
+		}
+	case *ssa.Phi:
+		k0, i0 := "", 0
+		for n, e := range x.Edges {
+			k, i := rootOf(e, depth+1)
+			if n == 0 {
+				k0, i0 = k, i
+			} else if k != k0 || i != i0 {
+				return "any", 0
+			}
+		}
+		if k0 != "" {
+			return k0, i0
+		}
+	}
+	return "any", 0
 }
 
 // compRef lets any unit declare the component with its own sort table.
@@ -51,7 +152,7 @@ type modAnalysis struct {
 	P      *Program
 	u      *Unit // naming of components (shares nothing else)
 	direct map[*ssa.Function]*ModSet
-	calls  map[*ssa.Function][]*ssa.Function
+	calls  map[*ssa.Function][]callSite
 	trans  map[*ssa.Function]*ModSet
 	impls  map[string][]*ssa.Function // interface method key -> module implementations
 	bySig  map[string][]*ssa.Function // signature string -> address-taken module functions
@@ -64,7 +165,7 @@ func getModAnalysis(P *Program, C *Contracts) *modAnalysis {
 	if theModAnalysis != nil && theModAnalysis.P == P {
 		return theModAnalysis
 	}
-	m := &modAnalysis{P: P, C: C, u: newUnit(P, C, "modset"), direct: map[*ssa.Function]*ModSet{}, calls: map[*ssa.Function][]*ssa.Function{}, trans: map[*ssa.Function]*ModSet{}, impls: map[string][]*ssa.Function{}, bySig: map[string][]*ssa.Function{}}
+	m := &modAnalysis{P: P, C: C, u: newUnit(P, C, "modset"), direct: map[*ssa.Function]*ModSet{}, calls: map[*ssa.Function][]callSite{}, trans: map[*ssa.Function]*ModSet{}, impls: map[string][]*ssa.Function{}, bySig: map[string][]*ssa.Function{}}
 	m.index()
 	theModAnalysis = m
 	return m
@@ -135,12 +236,11 @@ func stripRecv(s *types.Signature) *types.Signature {
 	return types.NewSignatureType(nil, nil, nil, s.Params(), s.Results(), s.Variadic())
 }
 
-// addrComps names the components a store through addr may hit.
-func (m *modAnalysis) addrComps(addr ssa.Value, out *ModSet) {
+// compsOfAddr lists the components a store through addr may hit (type-based).
+func (m *modAnalysis) compsOfAddr(addr ssa.Value) (res []compRef, all bool) {
 	u := m.u
 	switch a := addr.(type) {
 	case *ssa.FieldAddr:
-		// walk to the root of the field chain
 		root := ssa.Value(a)
 		var first *ssa.FieldAddr
 		for {
@@ -152,99 +252,142 @@ func (m *modAnalysis) addrComps(addr ssa.Value, out *ModSet) {
 			root = fa.X
 		}
 		if ia, ok := root.(*ssa.IndexAddr); ok {
-			m.addrComps(ia, out)
-			return
+			return m.compsOfAddr(ia)
 		}
 		pt, ok := types.Unalias(first.X.Type()).Underlying().(*types.Pointer)
 		if !ok {
-			out.all, out.why = true, "field address of non-pointer"
-			return
+			return nil, true
 		}
-		out.add(u, compRef{kind: "field", t: pt.Elem(), field: first.Field})
-		// the base may itself be an interior pointer handed in by a caller: the caller havocs escaped places
+		return []compRef{{kind: "field", t: pt.Elem(), field: first.Field}}, false
 	case *ssa.IndexAddr:
 		switch xt := types.Unalias(a.X.Type()).Underlying().(type) {
 		case *types.Slice:
-			out.add(u, compRef{kind: "elem", t: xt.Elem()})
+			return []compRef{{kind: "elem", t: xt.Elem()}}, false
 		case *types.Pointer:
 			if at, ok := xt.Elem().Underlying().(*types.Array); ok {
-				out.add(u, compRef{kind: "elem", t: at.Elem()})
+				return []compRef{{kind: "elem", t: at.Elem()}}, false
 			}
 		}
+		return nil, false
 	default:
 		pt, ok := types.Unalias(addr.Type()).Underlying().(*types.Pointer)
 		if !ok {
-			return
+			return nil, false
 		}
-		m.wholeObject(pt.Elem(), out)
+		return m.compsOfObject(pt.Elem()), false
 	}
+	_ = u
+	return nil, false
 }
 
-func (m *modAnalysis) wholeObject(t types.Type, out *ModSet) {
+func (m *modAnalysis) compsOfObject(t types.Type) []compRef {
 	u := m.u
 	if isStructVal(t) {
 		so := u.S.sortOf(t)
+		var res []compRef
 		for i := range u.S.structs[so].Fields {
-			out.add(u, compRef{kind: "field", t: t, field: i})
+			res = append(res, compRef{kind: "field", t: t, field: i})
 		}
-		return
+		return res
 	}
 	if at, ok := t.Underlying().(*types.Array); ok {
-		out.add(u, compRef{kind: "elem", t: at.Elem()})
-		return
+		return []compRef{{kind: "elem", t: at.Elem()}}
 	}
-	out.add(u, compRef{kind: "ptr", t: t})
+	return []compRef{{kind: "ptr", t: t}}
+}
+
+func (m *modAnalysis) wholeObject(t types.Type, out *ModSet) {
+	for _, c := range m.compsOfObject(t) {
+		out.add(m.u, c)
+	}
+}
+
+func (m *modAnalysis) compsOfMap(t types.Type) []compRef {
+	mt, ok := types.Unalias(t).Underlying().(*types.Map)
+	if !ok {
+		return nil
+	}
+	return []compRef{{kind: "maph", t: mt}, {kind: "mapv", t: mt}, {kind: "ml"}}
 }
 
 func (m *modAnalysis) mapComps(t types.Type, out *ModSet) {
-	mt, ok := types.Unalias(t).Underlying().(*types.Map)
-	if !ok {
-		return
+	for _, c := range m.compsOfMap(t) {
+		out.add(m.u, c)
 	}
-	out.add(m.u, compRef{kind: "maph", t: mt})
-	out.add(m.u, compRef{kind: "mapv", t: mt})
-	out.add(m.u, compRef{kind: "ml"})
 }
 
-func (m *modAnalysis) directOf(fn *ssa.Function) (*ModSet, []*ssa.Function) {
+// directOf: the writes a function performs itself (rooted in parameters / captured variables where visible) and
+// its call sites.
+func (m *modAnalysis) directOf(fn *ssa.Function) (*ModSet, []callSite) {
 	if d, ok := m.direct[fn]; ok {
 		return d, m.calls[fn]
 	}
-	d := &ModSet{comps: map[string]compRef{}}
-	var callees []*ssa.Function
+	d := newModSet()
+	var sites []callSite
 	m.direct[fn] = d
-	addCallee := func(c *ssa.Function) {
-		callees = append(callees, c)
+	aligned := func(callee *ssa.Function, args []ssa.Value) []ssa.Value {
+		if len(args) == len(callee.Params) {
+			return args
+		}
+		return nil
+	}
+	addCallee := func(c *ssa.Function, args []ssa.Value, bindings []ssa.Value) {
+		if c == nil || c.Blocks == nil || !inModule(c) {
+			return
+		}
+		sites = append(sites, callSite{callee: c, args: aligned(c, args), bindings: bindings})
+	}
+	addOrigins := func(v ssa.Value, args []ssa.Value) {
+		if mc, ok := v.(*ssa.MakeClosure); ok {
+			addCallee(mc.Fn.(*ssa.Function), args, mc.Bindings)
+			return
+		}
+		if fs, known := funcOrigins(v, 0); known {
+			for _, f := range fs {
+				addCallee(f, args, nil)
+			}
+			return
+		}
+		if sig, ok := v.Type().Underlying().(*types.Signature); ok {
+			for _, f := range m.bySig[types.TypeString(stripRecv(sig), nil)] {
+				addCallee(f, args, nil)
+			}
+		}
+	}
+	rooted := func(cs []compRef, v ssa.Value) {
+		k, i := rootOf(v, 0)
+		for _, c := range cs {
+			d.addRooted(m.u, c, k, i)
+		}
 	}
 	for _, b := range fn.Blocks {
 		for _, ins := range b.Instrs {
 			switch ins := ins.(type) {
 			case *ssa.Store:
-				if !isFreshRoot(ins.Addr) {
-					m.addrComps(ins.Addr, d)
+				cs, all := m.compsOfAddr(ins.Addr)
+				if all {
+					d.all, d.why = true, "store through an address of unknown shape"
 				}
+				rooted(cs, ins.Addr)
 			case *ssa.MapUpdate:
-				m.mapComps(ins.Map.Type(), d)
+				rooted(m.compsOfMap(ins.Map.Type()), ins.Map)
 			case *ssa.Alloc, *ssa.MakeMap, *ssa.MakeSlice, *ssa.MakeClosure, *ssa.MakeChan:
 				// writes to objects that did not exist before the call do not concern the caller's cells
 				d.add(m.u, compRef{kind: "wm"})
-			case *ssa.Select:
-				// receives write their destinations only through SSA values
 			case ssa.CallInstruction:
 				cc := ins.Common()
 				if bi, ok := cc.Value.(*ssa.Builtin); ok {
 					switch bi.Name() {
 					case "append":
-						// modelled as a fresh backing array
 						d.add(m.u, compRef{kind: "wm"})
 					case "copy":
 						if st, ok := types.Unalias(cc.Args[0].Type()).Underlying().(*types.Slice); ok {
-							d.add(m.u, compRef{kind: "elem", t: st.Elem()})
+							rooted([]compRef{{kind: "elem", t: st.Elem()}}, cc.Args[0])
 						}
 					case "delete", "clear":
-						m.mapComps(cc.Args[0].Type(), d)
+						rooted(m.compsOfMap(cc.Args[0].Type()), cc.Args[0])
 						if st, ok := types.Unalias(cc.Args[0].Type()).Underlying().(*types.Slice); ok {
-							d.add(m.u, compRef{kind: "elem", t: st.Elem()})
+							rooted([]compRef{{kind: "elem", t: st.Elem()}}, cc.Args[0])
 						}
 					}
 					continue
@@ -255,82 +398,77 @@ func (m *modAnalysis) directOf(fn *ssa.Function) (*ModSet, []*ssa.Function) {
 					}
 					// class-hierarchy analysis over module types; external implementations are assumed
 					// not to write module state except through what they are handed
+					args := append([]ssa.Value{cc.Value}, cc.Args...)
 					for _, impl := range m.impls[cc.Method.Name()] {
 						if types.Implements(recvType(impl), cc.Value.Type().Underlying().(*types.Interface)) {
-							addCallee(impl)
+							// the receiver is an interface value: its dynamic object is not the interface cell
+							a2 := append([]ssa.Value{nil}, cc.Args...)
+							_ = args
+							addCallee(impl, a2, nil)
 						}
 					}
-					m.escapes(cc, d)
+					m.escapesRooted(cc.Args, d)
+					m.callbackSites(cc.Args, addOrigins, addCallee)
 					continue
 				}
 				callee := cc.StaticCallee()
 				if callee == nil {
-					if mc, ok := cc.Value.(*ssa.MakeClosure); ok {
-						addCallee(mc.Fn.(*ssa.Function))
-						continue
-					}
-					// dynamic call: resolve the function value where its origin is visible, otherwise every
-					// address-taken module function of that signature
-					if fs, known := funcOrigins(cc.Value, 0); known {
-						for _, f := range fs {
-							if inModule(f) && f.Blocks != nil {
-								addCallee(f)
-							}
-						}
-					} else if sig, ok := cc.Value.Type().Underlying().(*types.Signature); ok {
-						for _, f := range m.bySig[types.TypeString(stripRecv(sig), nil)] {
-							addCallee(f)
-						}
-					}
-					m.escapes(cc, d)
+					addOrigins(cc.Value, cc.Args)
+					m.escapesRooted(cc.Args, d)
 					continue
 				}
-				if c := m.C.Funcs[funcKey(callee)]; c != nil && c.HasMod && !c.ModAll && !c.ModAuto {
-					// explicit frame in the contract: name its components conservatively from the callee body anyway
+				if mc, ok := cc.Value.(*ssa.MakeClosure); ok {
+					addCallee(callee, cc.Args, mc.Bindings)
+					continue
 				}
 				if inModule(callee) {
-					if callee.Blocks != nil {
-						addCallee(callee)
-					}
+					addCallee(callee, cc.Args, nil)
 					continue
 				}
 				if isNoopCallee(callee) || (isPurePkgFunc(callee) && !mutatingExternals[funcKey(callee)]) {
 					continue
 				}
 				// external mutating function: writes what it is handed, may call back
-				m.escapes(cc, d)
-				for _, a := range cc.Args {
-					switch t := types.Unalias(a.Type()).Underlying().(type) {
-					case *types.Interface:
-						for i := 0; i < t.NumMethods(); i++ {
-							for _, impl := range m.impls[t.Method(i).Name()] {
-								if types.Implements(recvType(impl), t) {
-									addCallee(impl)
-								}
-							}
-						}
-					case *types.Signature:
-						if fs, known := funcOrigins(a, 0); known {
-							for _, f := range fs {
-								if inModule(f) && f.Blocks != nil {
-									addCallee(f)
-								}
-							}
-						} else {
-							for _, f := range m.bySig[types.TypeString(stripRecv(t), nil)] {
-								addCallee(f)
-							}
-						}
-					}
-				}
+				m.escapesRooted(cc.Args, d)
+				m.callbackSites(cc.Args, addOrigins, addCallee)
 			}
 		}
 	}
-	for _, af := range fn.AnonFuncs {
-		_ = af // closures are reached through MakeClosure + dynamic calls (bySig) or Go/Defer statements
+	m.calls[fn] = sites
+	return d, sites
+}
+
+// callbackSites: an external callee may invoke methods of interface-typed arguments and function values.
+func (m *modAnalysis) callbackSites(args []ssa.Value, addOrigins func(ssa.Value, []ssa.Value), addCallee func(*ssa.Function, []ssa.Value, []ssa.Value)) {
+	for _, a := range args {
+		switch t := types.Unalias(a.Type()).Underlying().(type) {
+		case *types.Interface:
+			for i := 0; i < t.NumMethods(); i++ {
+				for _, impl := range m.impls[t.Method(i).Name()] {
+					if types.Implements(recvType(impl), t) {
+						addCallee(impl, nil, nil)
+					}
+				}
+			}
+		case *types.Signature:
+			addOrigins(a, nil)
+		}
 	}
-	m.calls[fn] = callees
-	return d, callees
+}
+
+// escapesRooted: external code may write every object whose pointer/slice/map it receives (rooted where visible).
+func (m *modAnalysis) escapesRooted(args []ssa.Value, d *ModSet) {
+	for _, a := range args {
+		tmp := newModSet()
+		m.reachableWrites(a.Type(), tmp, 0)
+		k, i := rootOf(a, 0)
+		first := true
+		_ = first
+		for _, c := range tmp.comps {
+			// only the directly handed object is rooted; anything reached through it is "any"
+			d.addRooted(m.u, c, k, i)
+		}
+	}
 }
 
 // isFreshRoot: the address is inside an object allocated by this very function.
@@ -538,13 +676,14 @@ func (m *modAnalysis) reachableWrites(t types.Type, d *ModSet, depth int) {
 	}
 }
 
-// modSetOf is the transitive closure over the static call graph.
+// modSetOf is the least fixed point of the effect summaries over the static call graph.
 func (m *modAnalysis) modSetOf(fn *ssa.Function) *ModSet {
 	if t, ok := m.trans[fn]; ok {
 		return t
 	}
-	res := &ModSet{comps: map[string]compRef{}}
+	// reachable set
 	seen := map[*ssa.Function]bool{}
+	var order []*ssa.Function
 	stack := []*ssa.Function{fn}
 	for len(stack) > 0 {
 		f := stack[len(stack)-1]
@@ -553,17 +692,102 @@ func (m *modAnalysis) modSetOf(fn *ssa.Function) *ModSet {
 			continue
 		}
 		seen[f] = true
-		d, callees := m.directOf(f)
-		if d.all {
-			res.all, res.why = true, d.why+" in "+f.Name()
+		order = append(order, f)
+		_, sites := m.directOf(f)
+		for _, cs := range sites {
+			stack = append(stack, cs.callee)
 		}
-		for c, s := range d.comps {
-			res.comps[c] = s
-		}
-		stack = append(stack, callees...)
 	}
-	m.trans[fn] = res
-	return res
+	sum := map[*ssa.Function]*ModSet{}
+	for _, f := range order {
+		if t, ok := m.trans[f]; ok {
+			sum[f] = t
+			continue
+		}
+		d, _ := m.directOf(f)
+		c := newModSet()
+		c.all, c.why = d.all, d.why
+		for k, v := range d.comps {
+			c.comps[k] = v
+		}
+		for i, mm := range d.byParam {
+			c.byParam[i] = map[string]compRef{}
+			for k, v := range mm {
+				c.byParam[i][k] = v
+			}
+		}
+		for i, mm := range d.byFree {
+			c.byFree[i] = map[string]compRef{}
+			for k, v := range mm {
+				c.byFree[i][k] = v
+			}
+		}
+		sum[f] = c
+	}
+	for round := 0; round < 50; round++ {
+		changed := false
+		for _, f := range order {
+			if _, done := m.trans[f]; done {
+				continue
+			}
+			s := sum[f]
+			for _, cs := range m.calls[f] {
+				cs2 := sum[cs.callee]
+				if cs2 == nil {
+					continue
+				}
+				if cs2.all && !s.all {
+					s.all, s.why, changed = true, cs2.why+" via "+cs.callee.Name(), true
+				}
+				for _, c := range cs2.comps {
+					if s.addRooted(m.u, c, "any", 0) {
+						changed = true
+					}
+				}
+				for i, mm := range cs2.byParam {
+					k, idx := "any", 0
+					if cs.args != nil && i < len(cs.args) && cs.args[i] != nil {
+						k, idx = rootOf(cs.args[i], 0)
+					}
+					for _, c := range mm {
+						if s.addRooted(m.u, c, k, idx) {
+							changed = true
+						}
+					}
+				}
+				for i, mm := range cs2.byFree {
+					k, idx := "any", 0
+					if cs.bindings != nil && i < len(cs.bindings) {
+						k, idx = rootOf(cs.bindings[i], 0)
+					}
+					for _, c := range mm {
+						if s.addRooted(m.u, c, k, idx) {
+							changed = true
+						}
+					}
+				}
+			}
+		}
+		if !changed {
+			break
+		}
+	}
+	for _, f := range order {
+		if _, done := m.trans[f]; !done {
+			// an "any" write subsumes rooted writes of the same component
+			s := sum[f]
+			for n := range s.comps {
+				for _, mm := range s.byParam {
+					delete(mm, n)
+				}
+				for _, mm := range s.byFree {
+					delete(mm, n)
+				}
+			}
+			m.trans[f] = s
+		}
+	}
+	return m.trans[fn]
 }
 
 func (ms *ModSet) sorted() []string {
@@ -575,8 +799,9 @@ func (ms *ModSet) sorted() []string {
 	return ks
 }
 
-// havocModSet forgets exactly the inferred components.
-func (fr *Frame) havocModSet(ms *ModSet, st *State, why string) {
+// havocModSet forgets exactly the inferred components: whole components for writes at unknown references,
+// single cells for writes inside the objects handed over as arguments (argVals aligned with the callee's params).
+func (fr *Frame) havocModSet(ms *ModSet, st *State, why string, argVals ...*Val) {
 	u := fr.u
 	if ms.all {
 		fr.havocAll(st, why)
@@ -601,6 +826,69 @@ func (fr *Frame) havocModSet(ms *ModSet, st *State, why string) {
 		}
 		fr.setComp(st, c, so, u.S.fresh(c+"@call", so))
 	}
+	var idxs []int
+	for i := range ms.byParam {
+		idxs = append(idxs, i)
+	}
+	sort.Ints(idxs)
+	for _, i := range idxs {
+		var names []string
+		for n := range ms.byParam[i] {
+			names = append(names, n)
+		}
+		sort.Strings(names)
+		for _, n := range names {
+			cr := ms.byParam[i][n]
+			c, so := u.resolveComp(cr)
+			u.compInit(c, so)
+			if _, whole := ms.comps[n]; whole {
+				continue
+			}
+			var arg *Val
+			if argVals != nil && i < len(argVals) {
+				arg = argVals[i]
+			}
+			ref := ""
+			if arg != nil && arg.S != "" && arg.Place == nil {
+				switch {
+				case u.S.sortOf(arg.T) == "Slice":
+					ref = app("sl_arr", arg.S)
+				case u.S.sortOf(arg.T) == "Int":
+					ref = arg.S
+				}
+			}
+			if arg != nil && arg.Place != nil && !arg.Place.Elem && len(arg.Place.Path) == 0 {
+				ref = arg.Place.Base
+			}
+			if fr.dry {
+				fr.setComp(st, c, so, "x")
+				continue
+			}
+			if ref == "" {
+				if arg != nil && arg.Place != nil {
+					continue // interior pointer: havocEscapedPlaces forgets the enclosing cell
+				}
+				fr.setComp(st, c, so, u.S.fresh(c+"@call", so))
+				continue
+			}
+			_, rng := splitArraySort(so)
+			cell := u.S.fresh(c+"@cell", rng)
+			fr.setComp(st, c, so, sto(u.comp(st, c, so), ref, cell))
+		}
+	}
+	if len(ms.byFree) > 0 {
+		for _, mm := range ms.byFree {
+			for _, cr := range mm {
+				c, so := u.resolveComp(cr)
+				u.compInit(c, so)
+				if fr.dry {
+					fr.setComp(st, c, so, "x")
+					continue
+				}
+				fr.setComp(st, c, so, u.S.fresh(c+"@call", so))
+			}
+		}
+	}
 }
 
 // callbacks: an external callee may invoke methods of interface-typed arguments and function values.
@@ -609,7 +897,7 @@ func (m *modAnalysis) callbacks(cc *ssa.CallCommon, d *ModSet) {
 		if ms.all {
 			d.all = true
 		}
-		for k, v := range ms.comps {
+		for k, v := range ms.flat() {
 			d.comps[k] = v
 		}
 	}
@@ -647,4 +935,23 @@ func (m *modAnalysis) callbacks(cc *ssa.CallCommon, d *ModSet) {
 			}
 		}
 	}
+}
+
+// flat forgets the rooting: every written component, as if written anywhere.
+func (ms *ModSet) flat() map[string]compRef {
+	res := map[string]compRef{}
+	for k, v := range ms.comps {
+		res[k] = v
+	}
+	for _, mm := range ms.byParam {
+		for k, v := range mm {
+			res[k] = v
+		}
+	}
+	for _, mm := range ms.byFree {
+		for k, v := range mm {
+			res[k] = v
+		}
+	}
+	return res
 }
